@@ -118,27 +118,27 @@ E3_ASSUME = [
 ]
 
 
-def e3_stage(prop, quick_len, thorough_len, cfgs_q, cfgs_t, nested_q=1, nested_t=2, extra=None):
-    return dict(name="crash", driver="crash", flavour="asan", args=["--prop", prop] + (extra or []),
-                quick=["--cfgs", cfgs_q, "--len", str(quick_len), "--nested", str(nested_q)],
-                thorough=["--cfgs", cfgs_t, "--len", str(thorough_len), "--nested", str(nested_t), "--wide", "1"])
+def e3_stage(prop, quick_len, thorough_len, cfgs_q, cfgs_t, nested_q=1, nested_t=2, classes=0x7f):
+    return dict(name="crash", driver="crash", flavour="asan", args=["--prop", prop, "--classes", str(classes)],
+                quick=["--cfgs", cfgs_q, "--len", str(quick_len), "--nested", str(nested_q), "--scripted", "1"],
+                thorough=["--cfgs", cfgs_t, "--len", str(thorough_len), "--nested", str(nested_t), "--wide", "1", "--scripted", "2"])
 
 
-CFG_Q = "B1;B1,reuse=1;B1,snappy=1"
+CFG_Q = "B1;B1,reuse=1"
 CFG_T = "B1;B1,reuse=1;B1,snappy=1;B1,reuse=1,snappy=1,bloom=1;B1,mmap=0,cache=1"
 
-E3_RULE = ("every history up to the given length over {put-sync, put, put-1KiB, batch-sync(3 updates), del-sync, flush, reopen} plus 7 scripted longer histories "
-           "(log rotation, flush, compaction, reopen chains, 700-update batch) x EVERY journal index (system-call boundary) as crash point x image classes "
-           "{min, max, dir-ahead, data-ahead, every intermediate directory prefix x {synced,written}, every cut inside the last write (all cuts if <=256 B)}; "
+E3_RULE = ("every history up to the given length over {put-sync, put, put-1KiB, batch-sync(3 updates), del-sync, flush, reopen} plus scripted longer histories "
+           "(log rotation, flush, compaction, reopen chains; thorough: a 700-update batch spanning 4 log blocks) x EVERY journal index (system-call boundary) as crash point x image classes "
+           "{min, max, dir-ahead, data-ahead, every intermediate directory prefix x {synced,written}, every cut inside the last write (all cuts if <=256 B)} (per check: the classes its property quantifies over); "
            "real ldb_open on each distinct image with paranoid_checks 0 and 1, second open, follow-up write + third open, and crash points inside the recovery itself; "
            "distinct = distinct (recovered contents, surviving set, open status) outcomes")
 
-for _p, _tech, _ql, _tl in [
-    ("C02", "crash-point x crash-image enumeration of recorded I/O journals of the real write path; recovery by the real ldb_open; oracle: sync-acknowledged and log-deleted batches survive", 2, 3),
-    ("C03", "kill-point enumeration (image = everything written) over recorded journals incl. nested kill points inside recovery; oracle: every acknowledged batch present, at most the in-flight one extra, order preserved", 2, 3),
-    ("C05", "crash-point x crash-image enumeration; oracle: open succeeds, contents = fold of a per-log-segment prefix set, second open identical, follow-up write wins and persists, nested crash loses nothing", 2, 3),
+for _p, _tech, _ql, _tl, _cls, _cq in [
+    ("C02", "crash-point x crash-image enumeration of recorded I/O journals of the real write path; recovery by the real ldb_open; oracle: sync-acknowledged and log-deleted batches survive", 2, 3, 0x7f, CFG_Q),
+    ("C03", "kill-point enumeration (image = everything written) over recorded journals incl. nested kill points inside recovery; oracle: every acknowledged batch present, at most the in-flight one extra, order preserved", 3, 4, 0x02, CFG_Q + ";B1,snappy=1"),
+    ("C05", "crash-point x crash-image enumeration; oracle: open succeeds, contents = fold of a per-log-segment prefix set, second open identical, follow-up write wins and persists, nested crash loses nothing", 2, 3, 0x7f, CFG_Q),
 ]:
     PROPS[_p] = dict(level="fault_enumeration", technique=_tech, rule=E3_RULE, distinct_key="outcomes", assumptions=E3_ASSUME,
-                     stages=[e3_stage(_p, _ql, _tl, CFG_Q, CFG_T)])
+                     stages=[e3_stage(_p, _ql, _tl, _cq, CFG_T, classes=_cls)])
 
 ENGINES["crash"] = "E3: crash-point x crash-image enumerator over the journal of the in-memory VFS; recovery by the real ldb_open"
